@@ -1,5 +1,5 @@
 '''C11 - truncated listing => parser error or complete edition.'''
-from ..rules import parsers
+from ..rules import parsers, patterns
 from ..variants import parsers as _v
 
 ID = 'C11'
@@ -46,7 +46,13 @@ def check(ctx):
     ctx.run(parsers.check_lock_pair)
     ctx.run(parsers.check_read_loop)
     ctx.run(parsers.check_end_flag_terminated)
+    ctx.run(patterns.check_patterns, ID)
+
+
+def _variants(program):
+    return _v.variants(program, ID)
 
 
 def variants(program):
-    return _v.variants(program, ID)
+    from ..variants import patterns as _pv
+    return list(_variants(program)) + _pv.variants(program, ID)
